@@ -83,6 +83,13 @@ structure Tri where
 
 def Tri.transposed (t : Tri) : Tri := ⟨!t.upper, t.unit⟩
 
+/-- the matrix a triangular tag denotes: the named triangle of `A`, the diagonal replaced by
+ones for unit tags, zero elsewhere (the other triangle of the storage is never read) -/
+def triPart (t : Tri) (A : Mat) : Mat := fun i j =>
+  if i = j then (if t.unit then 1 else A i j)
+  else if t.upper then (if i < j then A i j else 0)
+  else (if j < i then A i j else 0)
+
 /-- `[TRSV] Matrix is singular!` is thrown iff a diagonal entry that is divided by is zero -/
 def triSingular (t : Tri) (n : Nat) (A : Mat) : Bool :=
   !t.unit && (List.range n).any fun i => A i i == 0
